@@ -73,10 +73,18 @@ func (s *swamp) PatchExpired(howMany int32, ops []msgpackpatch.Op, condition *ms
 
 	results := make([]PatchExpiredEntry, 0, len(selected))
 
+	// A treasure that was deleted between the selection and its patch must
+	// neither be patched (Save would bring it back) nor be re-inserted into
+	// the expiration index below.
+	alive := selected[:0]
 	for _, treasureObj := range selected {
-		entry := s.applyPatchExpiredOne(treasureObj, ops, condition, meta)
+		entry, stillThere := s.applyPatchExpiredOne(treasureObj, ops, condition, meta)
 		results = append(results, entry)
+		if stillThere {
+			alive = append(alive, treasureObj)
+		}
 	}
+	selected = alive
 
 	// Re-insert all selected treasures into the expiration index.
 	// Idempotent: ReindexExpiration drops existing entries by key
@@ -110,12 +118,19 @@ func (s *swamp) PatchExpired(howMany int32, ops []msgpackpatch.Op, condition *ms
 // guard and returns the outcome. It mirrors the per-key flow inside
 // PatchFields, minus the create-if-not-exist branch (PatchExpired only
 // touches existing treasures).
-func (s *swamp) applyPatchExpiredOne(treasureObj treasure.Treasure, ops []msgpackpatch.Op, condition *msgpackpatch.Condition, meta *PatchFieldsMeta) PatchExpiredEntry {
+func (s *swamp) applyPatchExpiredOne(treasureObj treasure.Treasure, ops []msgpackpatch.Op, condition *msgpackpatch.Condition, meta *PatchFieldsMeta) (PatchExpiredEntry, bool) {
 
 	guardID := treasureObj.StartTreasureGuard(true)
 	defer treasureObj.ReleaseTreasureGuard(guardID)
 
 	entry := PatchExpiredEntry{Key: treasureObj.GetKey()}
+
+	// Race: the treasure was deleted (or replaced) between selection and
+	// guard acquisition.
+	if s.beaconKey.Get(treasureObj.GetKey()) != treasureObj {
+		entry.Status = PatchStatusKeyNotFound
+		return entry, false
+	}
 
 	switch treasureObj.GetContentType() {
 	case treasure.ContentTypeByteArray:
@@ -126,12 +141,12 @@ func (s *swamp) applyPatchExpiredOne(treasureObj treasure.Treasure, ops []msgpac
 		// final ExpiredAt is whatever the treasure currently holds.
 		entry.Status = PatchStatusKeyNotFound
 		entry.ExpiredAt = expirationTimeAsTime(treasureObj.GetExpirationTime())
-		return entry
+		return entry, true
 	default:
 		entry.Status = PatchStatusTypeMismatch
 		entry.Error = "treasure is not a ByteArray"
 		entry.ExpiredAt = expirationTimeAsTime(treasureObj.GetExpirationTime())
-		return entry
+		return entry, true
 	}
 
 	raw, err := treasureObj.GetContentByteArray()
@@ -139,13 +154,13 @@ func (s *swamp) applyPatchExpiredOne(treasureObj treasure.Treasure, ops []msgpac
 		entry.Status = PatchStatusInternalError
 		entry.Error = err.Error()
 		entry.ExpiredAt = expirationTimeAsTime(treasureObj.GetExpirationTime())
-		return entry
+		return entry, true
 	}
 	if len(raw) < 2 || raw[0] != patchMsgpackMagic0 || raw[1] != patchMsgpackMagic1 {
 		entry.Status = PatchStatusEncodingNotSupported
 		entry.Error = "treasure ByteArray is not msgpack-encoded (missing magic prefix)"
 		entry.ExpiredAt = expirationTimeAsTime(treasureObj.GetExpirationTime())
-		return entry
+		return entry, true
 	}
 	inputBody := raw[2:]
 
@@ -156,7 +171,7 @@ func (s *swamp) applyPatchExpiredOne(treasureObj treasure.Treasure, ops []msgpac
 		entry.Status = classifyPatchError(applyErr)
 		entry.Error = applyErr.Error()
 		entry.ExpiredAt = expirationTimeAsTime(treasureObj.GetExpirationTime())
-		return entry
+		return entry, true
 	}
 
 	// On meta-only patches the body is unchanged, but we still call
@@ -170,7 +185,7 @@ func (s *swamp) applyPatchExpiredOne(treasureObj treasure.Treasure, ops []msgpac
 	entry.Status = PatchStatusPatched
 	entry.NewMsgpack = out
 	entry.ExpiredAt = expirationTimeAsTime(treasureObj.GetExpirationTime())
-	return entry
+	return entry, true
 }
 
 // expirationTimeAsTime converts a UnixNano-style expiration time int64 to
